@@ -1,6 +1,596 @@
-/- helper lemmas for TjdProps/C02.lean -/
+/- helper lemmas for TjdProps/C02.lean and TjdProps/C20.lean -/
 import Mathlib.Algebra.Ring.Defs
 import TjdModel.Autojac.MtlSpec
+import TjdLemmas.AutojacLemmas
 namespace Tjd.Autojac
+open Tjd
+
+/-! ### rejected calls (no algebra needed) -/
+
+section
+variable {α : Type}
+
+theorem accumulateT_rejected (E : Engine α) [Add α] (g : GDict α) (h : Grads α)
+    (hbad : ∃ kv ∈ g, E.expectsGrad kv.1 = false) :
+    accumulateT E g h = (h, some Err.value) := by
+  obtain ⟨kv, hkv, hb⟩ := hbad
+  have hall : ¬ (g.all (fun kv => E.expectsGrad kv.1) = true) := by
+    rw [List.all_eq_true]
+    intro hall
+    have := hall kv hkv
+    rw [hb] at this
+    cases this
+  unfold accumulateT
+  rw [if_neg hall]
+
+/-- whenever `Accumulate` reports an error the heap is the one it was given -/
+theorem accumulateT_err_unchanged (E : Engine α) [Add α] (g : GDict α) (h : Grads α) (e : Err)
+    (herr : (accumulateT E g h).2 = some e) : (accumulateT E g h).1 = h := by
+  unfold accumulateT at herr ⊢
+  split
+  · rename_i hall
+    rw [if_pos hall] at herr
+    cases herr
+  · rfl
+
+theorem aggregateT_ok_keys (E : Engine α) (A : Mat α → Except Err (Vec α)) (keyOrder : List Key)
+    (j : JDict α) (g : GDict α) (h : aggregateT E A keyOrder j = .ok g) :
+    g.map (·.1) = keyOrder := by
+  cases keyOrder with
+  | nil =>
+    simp [aggregateT, pure, Except.pure] at h
+    subst h; rfl
+  | cons k ks =>
+    unfold aggregateT at h
+    simp only [List.isEmpty_cons, Bool.false_eq_true, if_false] at h
+    cases hA : A (unite (((k :: ks).map fun k => lookupD j k []).headD []).length
+        ((k :: ks).map fun k => lookupD j k [])) with
+    | error e => rw [hA] at h; simp [bind, Except.bind] at h
+    | ok v =>
+      rw [hA] at h
+      by_cases hl : v.length = ((k :: ks).map E.numel).sum
+      · simp only [bind, Except.bind, hl, ne_eq, not_true_eq_false, if_false, pure, Except.pure] at h
+        injection h with h
+        rw [← h]
+        exact zip_splitCols_keys E.numel (k :: ks) v
+      · simp only [List.map_cons, List.sum_cons] at hl
+        simp [bind, Except.bind, hl, throw, throwThe, MonadExceptOf.throw] at h
+
+variable [Zero α] [One α] [Add α] [Mul α]
+
+theorem go_rejected (E : Engine α) (tensors inputs : List Key)
+    (A : Mat α → Except Err (Vec α)) (chunk : Option Nat) (retain : Bool) (h : Grads α) (e : Err)
+    (herr : (backward.go E tensors inputs A retain h chunk).err = some e) :
+    (backward.go E tensors inputs A retain h chunk).grads = h := by
+  unfold backward.go at herr ⊢
+  cases hte : tensors.isEmpty with
+  | true => simp only [if_true]
+  | false =>
+    cases hd : hasDup tensors with
+    | true => simp only [Bool.false_eq_true, if_true, if_false]
+    | false =>
+      simp only [hte, hd, Bool.false_eq_true, if_false] at herr ⊢
+      cases hj : jacT E tensors inputs chunk retain (diagonalizeT E tensors (initT E tensors)) with
+      | error e' => rfl
+      | ok js =>
+        obtain ⟨j1, sweeps⟩ := js
+        simp only [hj] at herr ⊢
+        cases hg : aggregateT E A inputs j1 with
+        | error e' => rfl
+        | ok g1 =>
+          simp only [hg] at herr ⊢
+          exact accumulateT_err_unchanged E g1 h e herr
+
+theorem go_bad_param (E : Engine α) (tensors inputs : List Key)
+    (A : Mat α → Except Err (Vec α)) (chunk : Option Nat) (retain : Bool) (h : Grads α)
+    (bad : Key) (hb : bad ∈ inputs) (hbad : E.expectsGrad bad = false) :
+    (backward.go E tensors inputs A retain h chunk).err ≠ none ∧
+    (backward.go E tensors inputs A retain h chunk).grads = h := by
+  unfold backward.go
+  cases hte : tensors.isEmpty with
+  | true => simp
+  | false =>
+    cases hd : hasDup tensors with
+    | true => simp
+    | false =>
+      simp only [Bool.false_eq_true, if_false]
+      cases hj : jacT E tensors inputs chunk retain (diagonalizeT E tensors (initT E tensors)) with
+      | error e' => exact ⟨by simp, rfl⟩
+      | ok js =>
+        obtain ⟨j1, sweeps⟩ := js
+        simp only []
+        cases hg : aggregateT E A inputs j1 with
+        | error e' => exact ⟨by simp, rfl⟩
+        | ok g1 =>
+          simp only []
+          have hkeys := aggregateT_ok_keys E A inputs j1 g1 hg
+          have hmem : bad ∈ g1.map (·.1) := by rw [hkeys]; exact hb
+          obtain ⟨kv, hkv, hk⟩ := List.mem_map.mp hmem
+          have hrej := accumulateT_rejected E g1 h ⟨kv, hkv, by rw [hk]; exact hbad⟩
+          rw [hrej]
+          exact ⟨by simp, rfl⟩
+
+/-! ### `mtl_backward`: the argument checks -/
+
+/-- everything `mtl_backward` does after the argument checks -/
+def mtlCore (E : Engine α) (losses features : List Key) (tps : List (List Key)) (shared : List Key)
+    (A : Mat α → Except Err (Vec α)) (chunk : Option Int) (retain : Bool) (h : Grads α) :
+    Outcome α :=
+  match runTasks E features (List.zip tps losses) h with
+  | (h1, .error e) => ⟨h1, some e, []⟩
+  | (h1, .ok ds) =>
+    match jacT E features shared (chunk.map Int.toNat) retain (stackT E ds) with
+    | .error e => ⟨h1, some e, []⟩
+    | .ok (j1, sweeps) =>
+      match aggregateT E A shared j1 with
+      | .error e => ⟨h1, some e, sweeps⟩
+      | .ok g1 => ⟨(accumulateT E g1 h1).1, (accumulateT E g1 h1).2, sweeps⟩
+
+/-- all argument checks pass -/
+def MtlChecks (E : Engine α) (ndim : Key → Nat) (losses features : List Key)
+    (tps : List (List Key)) (shared : List Key) (chunk : Option Int) : Prop :=
+  (∀ c, chunk = some c → 0 < c) ∧ features ≠ [] ∧ (∀ p ∈ tps.flatten, p ∉ shared) ∧
+  (∀ l ∈ losses, ndim l = 0) ∧ losses ≠ [] ∧ losses.length = tps.length ∧
+  (∀ p ∈ shared ++ tps.flatten, E.expectsGrad p = true) ∧
+  (∀ tp ∈ tps, (tp ++ features).Nodup) ∧ features.Nodup ∧ shared.Nodup
+
+/-- `mtl_backward` after the chunk-size check -/
+def mtlAfterChunk (E : Engine α) (ndim : Key → Nat) (losses features : List Key)
+    (tps : List (List Key)) (shared : List Key) (A : Mat α → Except Err (Vec α))
+    (chunk : Option Int) (retain : Bool) (h : Grads α) : Outcome α :=
+  if features.isEmpty then ⟨h, some Err.value, []⟩
+  else if tps.flatten.any (shared.contains ·) then ⟨h, some Err.value, []⟩
+  else if losses.any (fun l => ndim l > 0) then ⟨h, some Err.value, []⟩
+  else if losses.isEmpty then ⟨h, some Err.value, []⟩
+  else if losses.length ≠ tps.length then ⟨h, some Err.value, []⟩
+  else if !(shared ++ tps.flatten).all E.expectsGrad then ⟨h, some Err.value, []⟩
+  else if tps.any (fun tp => hasDup (tp ++ features)) then ⟨h, some Err.value, []⟩
+  else if hasDup features || hasDup shared then ⟨h, some Err.value, []⟩
+  else mtlCore E losses features tps shared A chunk retain h
+
+theorem mtlBackward_chunk_bad (E : Engine α) (ndim : Key → Nat) (losses features : List Key)
+    (tps : List (List Key)) (shared : List Key) (A : Mat α → Except Err (Vec α))
+    (chunk : Option Int) (retain : Bool) (h : Grads α) (hc : ∃ c, chunk = some c ∧ c ≤ 0) :
+    mtlBackward E ndim losses features tps shared A chunk retain h = ⟨h, some Err.value, []⟩ := by
+  obtain ⟨c, rfl, hc⟩ := hc
+  unfold mtlBackward
+  simp [hc]
+
+theorem mtlBackward_chunk_ok (E : Engine α) (ndim : Key → Nat) (losses features : List Key)
+    (tps : List (List Key)) (shared : List Key) (A : Mat α → Except Err (Vec α))
+    (chunk : Option Int) (retain : Bool) (h : Grads α) (hc : ∀ c, chunk = some c → 0 < c) :
+    mtlBackward E ndim losses features tps shared A chunk retain h =
+      mtlAfterChunk E ndim losses features tps shared A chunk retain h := by
+  cases chunk with
+  | none => rfl
+  | some c =>
+    have hc' : ¬ c ≤ 0 := by have := hc c rfl; omega
+    unfold mtlBackward
+    simp only [hc', decide_false, Bool.false_eq_true, if_false]
+    rfl
+
+theorem mtlAfterChunk_cases (E : Engine α) (ndim : Key → Nat) (losses features : List Key)
+    (tps : List (List Key)) (shared : List Key) (A : Mat α → Except Err (Vec α))
+    (chunk : Option Int) (retain : Bool) (h : Grads α) (h1' : ∀ c, chunk = some c → 0 < c) :
+    ∃ o, mtlAfterChunk E ndim losses features tps shared A chunk retain h = o ∧
+    ((¬ MtlChecks E ndim losses features tps shared chunk ∧ o = ⟨h, some Err.value, []⟩) ∨
+     (MtlChecks E ndim losses features tps shared chunk ∧
+        o = mtlCore E losses features tps shared A chunk retain h)) := by
+  refine ⟨_, rfl, ?_⟩
+  unfold mtlAfterChunk MtlChecks
+  split
+  · rename_i h2
+    left
+    refine ⟨?_, rfl⟩
+    rintro ⟨-, hf, -⟩
+    exact hf (List.isEmpty_iff.mp h2)
+  rename_i h2
+  have h2' : features ≠ [] := fun hf => h2 (List.isEmpty_iff.mpr hf)
+  split
+  · rename_i h3
+    left
+    refine ⟨?_, rfl⟩
+    rintro ⟨-, -, ho, -⟩
+    rw [List.any_eq_true] at h3
+    obtain ⟨p, hp, hps⟩ := h3
+    exact ho p hp (by simpa using hps)
+  rename_i h3
+  have h3' : ∀ p ∈ tps.flatten, p ∉ shared := by
+    intro p hp hps
+    apply h3
+    rw [List.any_eq_true]
+    exact ⟨p, hp, by simpa using hps⟩
+  split
+  · rename_i h4
+    left
+    refine ⟨?_, rfl⟩
+    rintro ⟨-, -, -, hs, -⟩
+    rw [List.any_eq_true] at h4
+    obtain ⟨l, hl, hd⟩ := h4
+    have := hs l hl
+    simp at hd
+    omega
+  rename_i h4
+  have h4' : ∀ l ∈ losses, ndim l = 0 := by
+    intro l hl
+    rcases Nat.eq_zero_or_pos (ndim l) with h0 | hpos
+    · exact h0
+    · exfalso
+      apply h4
+      rw [List.any_eq_true]
+      exact ⟨l, hl, by simpa using hpos⟩
+  split
+  · rename_i h5
+    left
+    refine ⟨?_, rfl⟩
+    rintro ⟨-, -, -, -, hl, -⟩
+    exact hl (List.isEmpty_iff.mp h5)
+  rename_i h5
+  have h5' : losses ≠ [] := fun hf => h5 (List.isEmpty_iff.mpr hf)
+  split
+  · rename_i h6
+    left
+    refine ⟨?_, rfl⟩
+    rintro ⟨-, -, -, -, -, hl, -⟩
+    exact h6 hl
+  rename_i h6
+  have h6' : losses.length = tps.length := by omega
+  split
+  · rename_i h7
+    left
+    refine ⟨?_, rfl⟩
+    rintro ⟨-, -, -, -, -, -, he, -⟩
+    have : (shared ++ tps.flatten).all E.expectsGrad = true := List.all_eq_true.mpr he
+    rw [this] at h7
+    cases h7
+  rename_i h7
+  have h7' : ∀ p ∈ shared ++ tps.flatten, E.expectsGrad p = true := by
+    apply List.all_eq_true.mp
+    cases hh : (shared ++ tps.flatten).all E.expectsGrad with
+    | true => rfl
+    | false => rw [hh] at h7; exact absurd rfl h7
+  split
+  · rename_i h8
+    left
+    refine ⟨?_, rfl⟩
+    rintro ⟨-, -, -, -, -, -, -, hn, -⟩
+    rw [List.any_eq_true] at h8
+    obtain ⟨tp, htp, hd⟩ := h8
+    have := (hasDup_eq_false_iff _).mpr (hn tp htp)
+    rw [this] at hd
+    cases hd
+  rename_i h8
+  have h8' : ∀ tp ∈ tps, (tp ++ features).Nodup := by
+    intro tp htp
+    apply (hasDup_eq_false_iff _).mp
+    cases hh : hasDup (tp ++ features) with
+    | false => rfl
+    | true =>
+      exfalso
+      apply h8
+      rw [List.any_eq_true]
+      exact ⟨tp, htp, hh⟩
+  split
+  · rename_i h9
+    left
+    refine ⟨?_, rfl⟩
+    rintro ⟨-, -, -, -, -, -, -, -, hf, hs⟩
+    rw [(hasDup_eq_false_iff _).mpr hf, (hasDup_eq_false_iff _).mpr hs] at h9
+    cases h9
+  rename_i h9
+  have h9' : features.Nodup ∧ shared.Nodup := by
+    rw [← hasDup_eq_false_iff, ← hasDup_eq_false_iff]
+    cases hh1 : hasDup features <;> cases hh2 : hasDup shared <;> simp [hh1, hh2] at h9 ⊢
+  right
+  exact ⟨⟨h1', h2', h3', h4', h5', h6', h7', h8', h9'.1, h9'.2⟩, rfl⟩
+
+theorem mtlBackward_cases (E : Engine α) (ndim : Key → Nat) (losses features : List Key)
+    (tps : List (List Key)) (shared : List Key) (A : Mat α → Except Err (Vec α))
+    (chunk : Option Int) (retain : Bool) (h : Grads α) :
+    (¬ MtlChecks E ndim losses features tps shared chunk ∧
+      mtlBackward E ndim losses features tps shared A chunk retain h = ⟨h, some Err.value, []⟩) ∨
+    (MtlChecks E ndim losses features tps shared chunk ∧
+      mtlBackward E ndim losses features tps shared A chunk retain h =
+        mtlCore E losses features tps shared A chunk retain h) := by
+  by_cases hc : ∃ c, chunk = some c ∧ c ≤ 0
+  · left
+    refine ⟨?_, mtlBackward_chunk_bad E ndim losses features tps shared A chunk retain h hc⟩
+    rintro ⟨hp, -⟩
+    obtain ⟨c, hc1, hc2⟩ := hc
+    have := hp c hc1
+    omega
+  · have hc' : ∀ c, chunk = some c → 0 < c := by
+      intro c hcc
+      by_cases h0 : 0 < c
+      · exact h0
+      · exact absurd ⟨c, hcc, by omega⟩ hc
+    rw [mtlBackward_chunk_ok E ndim losses features tps shared A chunk retain h hc']
+    obtain ⟨o, ho, h'⟩ := mtlAfterChunk_cases E ndim losses features tps shared A chunk retain h hc'
+    rw [ho]
+    exact h'
+
+end
+
+/-! ### dictionaries of the form `ks.map fun k => (k, G k)` -/
+
+section
+variable {β : Type}
+
+theorem zip_map_self (ks : List Key) (G : Key → β) :
+    List.zip ks (ks.map G) = ks.map fun k => (k, G k) := by
+  induction ks with
+  | nil => rfl
+  | cons a ks ih => simp [ih]
+
+theorem find?_map_self (ks : List Key) (G : Key → β) (k : Key) :
+    (ks.map fun i => (i, G i)).find? (·.1 == k) = if k ∈ ks then some (k, G k) else none := by
+  induction ks with
+  | nil => simp
+  | cons a ks ih =>
+    rw [List.map_cons, List.find?_cons]
+    by_cases h : a = k
+    · subst h; simp
+    · have hb : (a == k) = false := by simpa using h
+      simp only [hb, ih, List.mem_cons]
+      have : ¬ k = a := fun h' => h h'.symm
+      simp [this]
+
+theorem selectT_map_self (keys ks : List Key) (G : Key → β) (hsub : ∀ k ∈ keys, k ∈ ks) :
+    selectT keys (ks.map fun i => (i, G i)) = keys.map fun k => (k, G k) := by
+  unfold selectT
+  induction keys with
+  | nil => rfl
+  | cons a keys ih =>
+    have ha : a ∈ ks := hsub a (by simp)
+    rw [List.filterMap_cons, find?_map_self, if_pos ha]
+    simp only [List.map_cons]
+    rw [ih (fun k hk => hsub k (by simp [hk]))]
+
+theorem accumulate_fold_not_mem {α : Type} [Add α] (g : GDict α) (h : Grads α) (k : Key)
+    (hk : k ∉ g.map (·.1)) :
+    (g.foldl (fun (h : Grads α) (kv : Key × Vec α) =>
+        match h kv.1 with
+        | some old => h.set kv.1 (some (vadd old kv.2))
+        | none => h.set kv.1 (some kv.2)) h) k = h k := by
+  induction g generalizing h with
+  | nil => rfl
+  | cons a g ih =>
+    rw [List.map_cons, List.mem_cons, not_or] at hk
+    rw [List.foldl_cons, ih _ hk.2]
+    cases h a.1 <;> simp [Grads.set, hk.1]
+
+theorem accumulateT_not_mem {α : Type} [Add α] (E : Engine α) (g : GDict α) (h : Grads α) (k : Key)
+    (hk : k ∉ g.map (·.1)) : (accumulateT E g h).1 k = h k := by
+  unfold accumulateT
+  split
+  · exact accumulate_fold_not_mem g h k hk
+  · rfl
+
+end
+
+/-! ### the task transforms -/
+
+section
+variable {α : Type} [Semiring α]
+
+theorem lossGrad_eq (E : Engine α) (l i : Key) (hl : E.numel l = 1) :
+    materialize E i (E.vjp1 [l] [onesV (E.numel l)] i) = lossGrad E l i := by
+  unfold lossGrad autogradDeposit
+  simp [hl, splitCols, onesV]
+
+theorem gradT_task (E : Engine α) (l : Key) (ins : List Key) (hne : ins ≠ [])
+    (hcall : E.callOk [l] ins = true) (hl : E.numel l = 1) :
+    gradT E [l] ins (initT E [l]) = .ok (ins.map fun i => (i, lossGrad E l i)) := by
+  have h1 : ins.isEmpty = false := by cases ins <;> simp_all
+  have hlk : lookupD (initT E [l]) l [] = onesV (E.numel l) := lookupD_initT E [l] l (by simp)
+  unfold gradT
+  simp only [h1, Bool.false_eq_true, if_false, List.isEmpty_cons, Engine.vjp, hcall, if_true,
+    List.map_cons, List.map_nil, hlk, bind, Except.bind, pure, Except.pure]
+  rw [zip_map_self]
+  congr 1
+  apply List.map_congr_left
+  intro i _
+  rw [lossGrad_eq E l i hl]
+
+theorem taskAccum_cons (E : Engine α) (tp : List Key) (l : Key) (rest : List (List Key × Key))
+    (p : Key) (g : Option (Vec α)) :
+    taskAccum E ((tp, l) :: rest) p g =
+      taskAccum E rest p (if p ∈ tp then accum g (lossGrad E l p) else g) := by
+  unfold taskAccum
+  rw [List.foldl_cons]
+
+theorem taskT_spec (E : Engine α) (features tp : List Key) (l : Key) (h : Grads α)
+    (hne : features ≠ []) (hcall : E.callOk [l] (tp ++ features) = true) (hl : E.numel l = 1)
+    (hnd : tp.Nodup) (hexp : ∀ p ∈ tp, E.expectsGrad p = true) :
+    ∃ h1, taskT E features tp l h = (h1, .ok (features.map fun f => (f, lossGrad E l f))) ∧
+      ∀ k, h1 k = if k ∈ tp then accum (h k) (lossGrad E l k) else h k := by
+  have hne' : tp ++ features ≠ [] := by simp [hne]
+  have hkeys : (tp.map fun k => (k, lossGrad E l k)).map (·.1) = tp := by
+    simp [Function.comp_def]
+  have hacc := accumulateT_ok E (tp.map fun k => (k, lossGrad E l k)) h
+    (by rw [hkeys]; exact hexp) (by rw [hkeys]; exact hnd)
+  refine ⟨(accumulateT E (tp.map fun k => (k, lossGrad E l k)) h).1, ?_, ?_⟩
+  · unfold taskT
+    simp only [gradT_task E l (tp ++ features) hne' hcall hl]
+    rw [selectT_map_self tp (tp ++ features) _ (fun k hk => by simp [hk]),
+      selectT_map_self features (tp ++ features) _ (fun k hk => by simp [hk])]
+    simp only [hacc.1]
+  · intro k
+    have := hacc.2 k
+    rw [hkeys] at this
+    rw [this]
+    by_cases hk : k ∈ tp
+    · rw [if_pos hk, if_pos hk, lookupD_map_self (fun k => lossGrad E l k) tp k [] hk]
+    · rw [if_neg hk, if_neg hk]
+
+/-- the hypotheses each task must satisfy for its transform to succeed -/
+def TaskOk (E : Engine α) (features : List Key) (tl : List Key × Key) : Prop :=
+  E.callOk [tl.2] (tl.1 ++ features) = true ∧ E.numel tl.2 = 1 ∧ tl.1.Nodup ∧
+    ∀ p ∈ tl.1, E.expectsGrad p = true
+
+theorem runTasks_spec (E : Engine α) (features : List Key) (hne : features ≠ [])
+    (tasks : List (List Key × Key)) (h : Grads α) (hok : ∀ tl ∈ tasks, TaskOk E features tl) :
+    ∃ h1, runTasks E features tasks h =
+        (h1, .ok (tasks.map fun tl => features.map fun f => (f, lossGrad E tl.2 f))) ∧
+      ∀ k, h1 k = taskAccum E tasks k (h k) := by
+  induction tasks generalizing h with
+  | nil => exact ⟨h, rfl, fun k => rfl⟩
+  | cons tl rest ih =>
+    obtain ⟨tp, l⟩ := tl
+    obtain ⟨hcall, hl, hnd, hexp⟩ := hok (tp, l) (by simp)
+    obtain ⟨h1, ht, hh1⟩ := taskT_spec E features tp l h hne hcall hl hnd hexp
+    obtain ⟨h2, hr, hh2⟩ := ih h1 (fun tl' htl => hok tl' (by simp [htl]))
+    refine ⟨h2, ?_, ?_⟩
+    · unfold runTasks
+      simp only [ht, hr, List.map_cons]
+    · intro k
+      rw [hh2 k, hh1 k, taskAccum_cons]
+
+theorem taskAccum_unlisted' (E : Engine α) (tasks : List (List Key × Key)) (p : Key)
+    (g : Option (Vec α)) (hp : ∀ tl ∈ tasks, p ∉ tl.1) : taskAccum E tasks p g = g := by
+  induction tasks generalizing g with
+  | nil => rfl
+  | cons tl rest ih =>
+    obtain ⟨tp, l⟩ := tl
+    have h1 : p ∉ tp := hp (tp, l) (by simp)
+    rw [taskAccum_cons, if_neg h1]
+    exact ih g (fun tl' htl => hp tl' (by simp [htl]))
+
+/-! ### Stack and Jac on the task dictionaries -/
+
+theorem lookupD_stack_tasks {τ : Type} (E : Engine α) (features : List Key) (ts : List τ)
+    (G : τ → Key → Vec α) (hts : ts ≠ []) (f : Key) (hf : f ∈ features) :
+    lookupD (stackT E (ts.map fun t => features.map fun f => (f, G t f))) f [] =
+      ts.map fun t => G t f := by
+  have hk : f ∈ unionKeys (ts.map fun t => features.map fun f => (f, G t f)) := by
+    rw [mem_unionKeys]
+    cases ts with
+    | nil => exact absurd rfl hts
+    | cons t ts =>
+      exact ⟨features.map fun f => (f, G t f), List.mem_cons_self, G t f,
+        List.mem_map.mpr ⟨f, hf, rfl⟩⟩
+  unfold stackT
+  rw [lookupD_map_self _ _ f [] hk, List.map_map]
+  apply List.map_congr_left
+  intro t _
+  simp only [Function.comp]
+  rw [find?_map_self, if_pos hf]
+
+theorem cotRow_stack_tasks {τ : Type} (E : Engine α) (features : List Key) (ts : List τ)
+    (G : τ → Key → Vec α) (r : Nat) (hr : r < ts.length) :
+    cotRow features (stackT E (ts.map fun t => features.map fun f => (f, G t f))) r =
+      features.map fun f => G ts[r] f := by
+  have hts : ts ≠ [] := by intro h0; rw [h0] at hr; simp at hr
+  unfold cotRow
+  apply List.map_congr_left
+  intro f hf
+  rw [lookupD_stack_tasks E features ts G hts f hf]
+  simp [List.getD_eq_getElem?_getD, hr]
+
+theorem mtlRow_length (E : Engine α) (hE : E.WF) (features shared : List Key) (l : Key) :
+    (mtlRow E features shared l).length = (shared.map E.numel).sum := by
+  unfold mtlRow
+  rw [← List.flatMap_def]
+  exact length_flatMap_eq E.numel shared _ (fun s _ => materialize_vjp1_length E hE features _ s)
+
+theorem jacRows_stack_tasks (E : Engine α) (features shared : List Key)
+    (tasks : List (List Key × Key)) :
+    (List.range tasks.length).map (jacRow E features shared
+        (stackT E (tasks.map fun tl => features.map fun f => (f, lossGrad E tl.2 f)))) =
+      mtlJac E (tasks.map (·.2)) features shared := by
+  unfold mtlJac
+  apply List.ext_getElem
+  · simp
+  · intro i h1 h2
+    have hi : i < tasks.length := by simpa using h1
+    simp only [List.getElem_map, List.getElem_range]
+    unfold jacRow mtlRow
+    rw [cotRow_stack_tasks E features tasks (fun tl f => lossGrad E tl.2 f) i hi, List.flatMap_def]
+
+/-! ### the whole pipeline after the checks -/
+
+theorem mtlCore_not_shared (E : Engine α) (losses features : List Key) (tps : List (List Key))
+    (shared : List Key) (A : Mat α → Except Err (Vec α)) (chunk : Option Int) (retain : Bool)
+    (h h1 : Grads α) (ds : List (GDict α))
+    (hrun : runTasks E features (List.zip tps losses) h = (h1, .ok ds))
+    (k : Key) (hk : k ∉ shared) :
+    (mtlCore E losses features tps shared A chunk retain h).grads k = h1 k := by
+  unfold mtlCore
+  simp only [hrun]
+  cases hj : jacT E features shared (chunk.map Int.toNat) retain (stackT E ds) with
+  | error e => rfl
+  | ok js =>
+    obtain ⟨j1, sweeps⟩ := js
+    simp only []
+    cases hg : aggregateT E A shared j1 with
+    | error e => rfl
+    | ok g1 =>
+      simp only []
+      apply accumulateT_not_mem
+      rw [aggregateT_ok_keys E A shared j1 g1 hg]
+      exact hk
+
+theorem mtlCore_spec (E : Engine α) (hE : E.WF) (losses features : List Key) (tps : List (List Key))
+    (shared : List Key) (A : Mat α → Except Err (Vec α)) (chunk : Option Int) (retain : Bool)
+    (h : Grads α) (hfe : features ≠ []) (hs : shared ≠ []) (hlo : losses ≠ [])
+    (hlen : losses.length = tps.length) (hc : ∀ c, chunk = some c → 0 < c)
+    (hnd : shared.Nodup) (hfrg : ∀ f ∈ features, E.requiresGrad f = true)
+    (hsh : ∀ p ∈ shared, E.expectsGrad p = true ∧ E.requiresGrad p = true)
+    (hno : ∀ tp ∈ tps, ∀ p ∈ tp, p ∉ shared)
+    (hok : ∀ tl ∈ List.zip tps losses, TaskOk E features tl)
+    (v : Vec α) (hA : A (mtlJac E losses features shared) = .ok v)
+    (hv : v.length = (shared.map E.numel).sum) :
+    (mtlCore E losses features tps shared A chunk retain h).err = none ∧
+    ∀ k, (mtlCore E losses features tps shared A chunk retain h).grads k =
+      if k ∈ shared then accum (h k) (sliceOf E.numel shared k v)
+      else taskAccum E (List.zip tps losses) k (h k) := by
+  obtain ⟨h1, hrun, hh1⟩ := runTasks_spec E features hfe (List.zip tps losses) h hok
+  have hsnd : (List.zip tps losses).map (·.2) = losses := by
+    apply List.map_snd_zip
+    omega
+  have hzlen : (List.zip tps losses).length = losses.length := by
+    rw [List.length_zip]; omega
+  have hlpos : 0 < losses.length := List.length_pos_iff.mpr hlo
+  have hhead : features.headD 0 ∈ features := by
+    cases features with
+    | nil => exact absurd rfl hfe
+    | cons a t => simp
+  have hm : (lookupD (stackT E ((List.zip tps losses).map fun tl =>
+      features.map fun f => (f, lossGrad E tl.2 f))) (features.headD 0) []).length =
+      (List.zip tps losses).length := by
+    rw [lookupD_stack_tasks E features (List.zip tps losses) (fun tl f => lossGrad E tl.2 f)
+      (by intro h0; rw [h0] at hzlen; simp at hzlen; omega) _ hhead]
+    simp
+  obtain ⟨sw, hjac⟩ := jacT_ok E features shared (chunk.map Int.toNat) retain
+    (stackT E ((List.zip tps losses).map fun tl => features.map fun f => (f, lossGrad E tl.2 f)))
+    hs hfe (by rw [hm, hzlen]; exact hlpos) (toNat_chunk_pos chunk hc)
+    (callOk_of E features shared hfrg (fun i hi => (hsh i hi).2))
+  rw [hm, jacRows_stack_tasks, hsnd] at hjac
+  have hrows : ∀ row ∈ mtlJac E losses features shared, row.length = (shared.map E.numel).sum := by
+    intro row hrow
+    unfold mtlJac at hrow
+    obtain ⟨l, _, rfl⟩ := List.mem_map.mp hrow
+    exact mtlRow_length E hE features shared l
+  have hagg := aggregateT_ok E A shared
+    (List.zip shared (subMatrices (shared.map E.numel) (mtlJac E losses features shared))) hs v
+    (by rw [unite_after_jac E.numel shared _ hnd hs hrows]; exact hA) hv
+  have hkeys := zip_splitCols_keys E.numel shared v
+  have hacc := accumulateT_ok E (List.zip shared (splitCols (shared.map E.numel) v)) h1
+    (by rw [hkeys]; exact fun k hk => (hsh k hk).1) (by rw [hkeys]; exact hnd)
+  unfold mtlCore
+  simp only [hrun, hjac, hagg]
+  refine ⟨hacc.1, ?_⟩
+  intro k
+  have := hacc.2 k
+  rw [hkeys] at this
+  rw [this]
+  by_cases hk : k ∈ shared
+  · rw [if_pos hk, if_pos hk, lookupD_zip_splitCols E.numel shared k v hk, hh1 k,
+      taskAccum_unlisted' E _ k (h k)]
+    intro tl htl hkt
+    exact hno tl.1 (List.of_mem_zip htl).1 k hkt hk
+  · rw [if_neg hk, if_neg hk, hh1 k]
+
+end
 
 end Tjd.Autojac
